@@ -201,6 +201,12 @@ func genD(t *rapid.T) CaseD {
 		c.OverBy = body - c.Limit
 		c.OverType = rapid.SampledFrom([]byte{'Q', 'P', 'B', 'd', 'Y'}).Draw(t, "over-type")
 	}
+	if rapid.IntRange(0, 3).Draw(t, "sub-minimum-lengths?") == 0 {
+		c.SubMin = rapid.SliceOfN(rapid.Uint32Range(0, 3), 1, 3).Draw(t, "sub-min")
+		if c.OverType == 0 {
+			c.OverType = rapid.SampledFrom([]byte{'Q', 'P', 'S', 'd', 'Y'}).Draw(t, "sub-min-type")
+		}
+	}
 	nmsgs := len(c.Pre) + 3 + len(c.Mid)
 	for i, n := 0, rapid.IntRange(0, 3).Draw(t, "nvisitors"); i < n; i++ {
 		c.Visitors = append(c.Visitors, rapid.IntRange(0, nmsgs-1).Draw(t, "visitor-at"))
